@@ -17,6 +17,8 @@ mod gen_units;
 mod tables;
 #[path = "../gen_session.rs"]
 mod gen_session;
+#[path = "../gen_names.rs"]
+mod gen_names;
 
 fn main() {
     let args: Vec<String> = std::env::args().collect();
@@ -38,6 +40,8 @@ fn main() {
         "gen-c09" => gen_units::run_c09(&opts),
         "gen-c10" => gen_units::run_c10(&opts),
         "gen-c15" => gen_session::run(&opts),
+        "c07" => gen_names::run(&opts),
+        "c07-one" => gen_names::one(&opts),
         "encode" => {
             // encode plain-text query lines (stdin) as request lines
             use std::io::BufRead;
